@@ -548,7 +548,7 @@ class Pipeline:
             assert cache is not None
             cache_key = compute_cache_key(
                 func.output_name,
-                self._func_defaults(func) | flat_scope_kwargs | func._bound,
+                self._func_defaults(func) | flat_scope_kwargs,
                 root_args,
             )
             if cache_key is not None and self._intermediate_supplied(
